@@ -253,15 +253,21 @@ Definition bucket_ok (b : bucket V) : Prop :=
   forall n, o_get n (b_cur b) <> None ->
     exists v t, ver_cur b n = Some v /\ good_ver b v /\ tree_of b v = Some t /\ good_tree t.
 
+Lemma ver_in_cur_first b ps n v : ver_cur b n = Some v -> ver_in b (PCur :: ps) n = Some v.
+Proof.
+  unfold ver_cur. cbn [ver_in sel]. destruct (o_get n (b_cur b)) as [[t|v0]|]; try discriminate. auto.
+Qed.
+
 Lemma versions_of_names b names : bucket_ok b -> (forall n, In n names -> o_get n (b_cur b) <> None) ->
-  exists vs ts, versions_ok b names vs ts /\ Forall2 (fun n t => tree_named b n = Some t) names ts.
+  exists vs ts, versions_ok_in b [PCur; PMerged] names vs ts /\ Forall2 (fun n t => tree_named b n = Some t) names ts.
 Proof.
   intros Hb. induction names as [|n names IH]; intros Hin.
   - exists [], []. repeat split; constructor.
   - destruct IH as (vs & ts & (F1 & F2) & F3); [intros x Hx; apply Hin; right; exact Hx|].
     destruct (Hb n (Hin n (or_introl eq_refl))) as (v & t & Hv & Hg & Ht & Hgt).
     exists (v :: vs), (t :: ts). split; [split|]; constructor; auto.
-    unfold tree_named. rewrite Hv. exact Ht.
+    + split; [apply ver_in_cur_first; exact Hv|exact Hg].
+    + unfold tree_named. rewrite Hv. exact Ht.
 Qed.
 
 Definition view_fold (ts : list ctree) : option ctree :=
